@@ -1,7 +1,7 @@
 """C20 — every result code has its own correct message in cif_errlist (exhaustive table comparison)."""
 import re
 
-from ..facts import Broken, walk
+from ..facts import Broken, walk, const
 
 # Distinguishing stems per code: every group must match (case-insensitive), a group is a tuple of
 # alternatives.  This is the oracle for "describes that very condition"; a code defined later without an
@@ -115,7 +115,7 @@ def run(prog, chk):
     gn = prog.globals.get("cif_nerr")
     if not gn or not gn.get("init"):
         raise Broken("cif_nerr not found")
-    nerr = gn["init"].get("cv")
+    nerr = const(gn["init"])
     if nerr is None:
         raise Broken("cif_nerr is not a constant expression")
     file, fn_ = "cif.c", "cif_errlist"
